@@ -40,7 +40,8 @@ def main() -> None:
     checks = [pid]
     if "--checks" in sys.argv:
         checks = sys.argv[sys.argv.index("--checks") + 1].split(",")
-    wt = f"/tmp/wt-eval-{pid}"
+    wave = sys.argv[sys.argv.index("--wave") + 1] if "--wave" in sys.argv else ""
+    wt = f"/tmp/wt-eval-{pid}{wave}"
     subprocess.run(["git", "-C", "/repo", "worktree", "remove", "--force", wt], capture_output=True)
     shutil.rmtree(wt, ignore_errors=True)
     subprocess.run(["git", "-C", "/repo", "worktree", "add", "--detach", wt, "HEAD"], check=True, capture_output=True)
@@ -50,7 +51,7 @@ def main() -> None:
             patch, demo = out_dir / f"patch{n}.diff", out_dir / f"demo{n}.py"
             if not patch.exists() or not demo.exists():
                 continue
-            sid = f"{pid}-{n}"
+            sid = f"{pid}-{n}" if not wave else f"{pid}-w{wave}-{n}"
             meta = {"id": sid, "property": pid, "ran": [], "caught_by": []}
             notes = (out_dir / "notes.md").read_text() if (out_dir / "notes.md").exists() else ""
             sh(["git", "checkout", "--", "."], cwd=wt)
